@@ -281,6 +281,7 @@ class _Builder:
                 continue
             simple = all(_pure(x) for x in walk(a))
             pt = (g.types[p['t'] - toff] if isinstance(p.get('t'), int) and 0 <= p['t'] - toff < len(g.types) else '').strip()
+            pt = re.sub(r'\s*\bconst$', '', pt).strip()       # `char const* const p`: a const pointer is still a pointer
             by_value_object = not pt.endswith('&') and not pt.endswith('*') and not re.match(r'^(const )?(unsigned |signed )?(int|long|short|char|bool|double|float|std::size_t|size_t|std::u?int\d+_t|u?int\d+_t)( const)?$', pt)
             if by_value_object:
                 simple = False      # the helper works on its own copy of the object: keep it a local initialised from the argument
